@@ -14,6 +14,8 @@ import (
 	"sync"
 
 	"github.com/gkampitakis/go-snaps/internal/colors"
+	"github.com/gkampitakis/go-snaps/internal/difflib"
+	"github.com/gkampitakis/go-snaps/match"
 )
 
 func init() {
@@ -93,6 +95,13 @@ func setMode(m Mode) {
 
 // newProcess simulates the start of a fresh test process.
 func newProcess(m Mode) {
+	// every package-level variable of the library gets its initial value again (generated from the sources at build time:
+	// state that a change introduces is as cold as in a real new process); the colour switch is the harness' own setting
+	nc := colors.NOCOLOR
+	verifResetGlobals()
+	match.VerifResetGlobals()
+	difflib.VerifResetGlobals()
+	colors.NOCOLOR = nc
 	testsRegistry = newRegistry()
 	standaloneTestsRegistry = newStandaloneRegistry()
 	testEvents = newTestEvents()
